@@ -52,6 +52,8 @@ def main():
     patch, demo = os.path.join(d0, "patch.diff"), os.path.join(d0, "demo.py")
     meta_p = os.path.join(d0, "meta.json")
     meta = json.load(open(meta_p)) if os.path.exists(meta_p) else {}
+    if "base_rev" in meta and "SEED_BASE_REV" not in os.environ:
+        os.environ["SEED_BASE_REV"] = meta["base_rev"].split()[0]
     if cmd == "verify":
         clean = scratch()
         mut = scratch(patch)
